@@ -120,11 +120,17 @@ def correspond(ctx):
     o_free = Oracle(ctx, "free-running-first-calls")
     o_post = Oracle(ctx, "post-initialisation-independence")
     o_old = Oracle(ctx, "old-protocols-still-derivable-and-detected")
-    progs = T.compile_all(REPO)
+    try:
+        progs = T.compile_all(REPO)
+    except Exception as e:  # noqa: BLE001
+        # the translator refuses the current text (reported as the broken obligation translate:Threads): no model schedules to
+        # compare; the real-code parts below still run and the search preempts at every line instead
+        progs = None
+        ctx.notes.append(f"protocols not compilable from the current source ({str(e)[:200]}): model-enumerated schedules skipped")
     # ---- 1. every schedule the model enumerates, on the real code and through the model
     bounds = [(2, 2, None), (3, 1, None)] if not ctx.thorough else [(2, 3, None), (3, 2, None), (3, 3, 8000)]
     jobs = []
-    for proto in PROTOS:
+    for proto in (PROTOS if progs is not None else []):
         pts = sched.preemption_lines(progs[proto])
         for n, k, cap in bounds:
             sc = enum_schedules(ctx, proto, n, k)
@@ -149,13 +155,22 @@ def correspond(ctx):
         for i, r in enumerate(runs):
             ok = "crash" not in r and not r["notes"] and all(o == f"ok:{WANT[proto]}" for o in r["out"])
             o_free.check(proto, ok, {"op": "stress", "proto": proto, "threads": nthr, "reps": 40}, r if not ok else r["out"][:3], f"{nthr} threads: ok:{WANT[proto]}")
+    # ---- 2b. the initialisation made slow through the public API, other threads released while the first is inside it
+    o_slow = Oracle(ctx, "slow-initialisation-windows")
+    for proto, runs in zip(PROTOS, slow_runs(2 if not ctx.thorough else 10)):
+        for r in runs:
+            if r.get("skipped"):
+                continue
+            ok = "crash" not in r and not r["notes"] and all(o == "ok" for o in r["out"])
+            o_slow.check(proto, ok, {"op": "slow-window", "proto": proto, "threads": 4}, r, "every thread: the single-thread result, initialisation once")
     # ---- 3. after initialisation: concurrent hash / verify on shared hashers and contexts = sequential answers
     for r in post_init_runs(1 if not ctx.thorough else 10):
         o_post.check(r["what"], r["ok"], {"op": "post-init", "what": r["what"]}, r["observed"], "the answers of the sequential run")
     # ---- 4. the pre-fix protocols: still what the translator derives from the old text; the harness finds their races
-    old_checks(ctx, o_old, T, sched)
+    if progs is not None:
+        old_checks(ctx, o_old, T, sched)
     ctx.notes.append(f"correspondence wall time {time.time() - t_start:.1f} s")
-    return merge(s_sched, o_first, o_free, o_post, o_old)
+    return merge(s_sched, o_first, o_free, o_slow, o_post, o_old)
 
 
 def post_init_runs(reps):
@@ -251,9 +266,19 @@ def old_checks(ctx, o_old, T, sched):
 
 
 # ---------------------------------------------------------------------------------------------------------------------
+def slow_runs(reps):
+    with ThreadPoolExecutor(6) as ex:
+        return list(ex.map(lambda p: worker({"repo": REPO, "proto": p, "n": 4, "points": [], "schedules": [], "slow": reps, "slow_n": 4}).get("slow", []), PROTOS))
+
+
 def search(ctx, broken, seeds):
     """the property on the real code: enumerate / sample schedules of first calls, then free-running stress; first failure wins"""
     T, sched = _tools()
+    for proto, runs in zip(PROTOS, slow_runs(3)):
+        for r in runs:
+            if not r.get("skipped") and ("crash" in r or r["notes"] or any(o != "ok" for o in r["out"])):
+                return {"input": {"op": "slow-window", "proto": proto, "threads": 4}, "observed": r,
+                        "expected": "every thread gets the single-thread result while another thread is inside the (slow) initialisation"}
     try:
         progs = T.compile_all(REPO)
     except Exception:  # noqa: BLE001
@@ -309,6 +334,10 @@ def replay(ctx, inp):
         free = worker({"repo": REPO, "proto": proto, "n": inp.get("threads", 12), "points": [], "schedules": [], "free": inp.get("reps", 40), "free_n": inp.get("threads", 12)})["free"]
         bad = [r for r in free if "crash" in r or r["notes"] or any(o != f"ok:{WANT[proto]}" for o in r["out"])]
         return {"fails": bool(bad), "observed": bad[:2] or f"{len(free)} runs, every thread ok:{WANT[proto]}"}
+    if op == "slow-window":
+        runs = worker({"repo": REPO, "proto": inp["proto"], "n": 4, "points": [], "schedules": [], "slow": 3, "slow_n": inp.get("threads", 4)}).get("slow", [])
+        bad = [r for r in runs if "crash" in r or r["notes"] or any(o != "ok" for o in r["out"])]
+        return {"fails": bool(bad), "observed": bad[:2] or f"{len(runs)} runs, every thread ok"}
     if op == "post-init":
         rs = post_init_runs(2)
         return {"fails": any(not r["ok"] for r in rs), "observed": rs}
